@@ -1,21 +1,21 @@
 #!/bin/bash
 # confirm_seed.sh <worktree> <seed-id>: confirm a seeded change ourselves
 # (suite passes with change, demo fails with change, demo passes without), then
-# store it under /verif/seeded/<seed-id>/.
+# store it under /verif/seeded/<seed-id>/.  seed/patch.diff (source change only)
+# is authoritative; the demo (tests/seed_demo.rs or an appended #[cfg(test)] mod)
+# stays in place while the patch is reverted.
 set -u
 wt=$1; id=$2
 cd "$wt" || exit 2
 out=/verif/seeded/$id; mkdir -p $out
-git diff -- src > /tmp/confirm-$id.diff
-if ! diff -q <(grep -v '^index ' /tmp/confirm-$id.diff) <(grep -v '^index ' seed/patch.diff) >/dev/null; then echo "NOTE: worktree diff differs from seed/patch.diff (using worktree diff)"; fi
 echo "== with change: full suite"
-cargo test --offline -j 4 --no-fail-fast > /tmp/confirm-$id.with.log 2>&1
-grep "test result\|seed_demo" /tmp/confirm-$id.with.log | head -12
+cargo test --offline -j 3 --no-fail-fast > /tmp/confirm-$id.with.log 2>&1
+grep "test result\|seed_demo.*\(FAILED\|ok\)" /tmp/confirm-$id.with.log | head -12
 echo "== without change: demo"
-git apply -R /tmp/confirm-$id.diff || exit 2
-cargo test --offline -j 4 seed_demo > /tmp/confirm-$id.without.log 2>&1
-grep "test result\|seed_demo" /tmp/confirm-$id.without.log | head -8
-git apply /tmp/confirm-$id.diff
-cp /tmp/confirm-$id.diff $out/patch.diff
-cp seed/demo.rs $out/demo.rs 2>/dev/null || cp tests/seed_demo.rs $out/demo.rs
+git apply -R seed/patch.diff || exit 2
+cargo test --offline -j 3 seed_demo > /tmp/confirm-$id.without.log 2>&1
+grep "test result\|seed_demo.*\(FAILED\|ok\)" /tmp/confirm-$id.without.log | grep -v "0 passed; 0 failed" | head -8
+git apply seed/patch.diff
+cp seed/patch.diff $out/patch.diff
+cp seed/demo.rs $out/demo.rs
 cp seed/meta.json $out/meta.json
